@@ -291,27 +291,29 @@ Proof.
     rewrite pyidx_nonneg by exact N. rewrite app_nth1 by lia. exact E.
 Qed.
 
-(* a slice pads with as many False's as there are ELEMENTS: correct as long as the dimension
-   has no more subtotals than elements *)
-Theorem derived_idxs_slice_spec derived order k :
-  Forall (in_range (length derived) (length derived)) order ->
-  (In k (derived_idxs_slice derived order) <->
+(* a slice pads with one False per subtotal, like a strand (since the repair of finding
+   C05-derived-idxs-indexerror) *)
+Theorem derived_idxs_slice_spec derived nsub order k :
+  Forall (in_range nsub (length derived)) order ->
+  (In k (derived_idxs_slice derived nsub order) <->
    k < length order /\ (0 <= nth k order 0%Z)%Z /\ nth (Z.to_nat (nth k order 0%Z)) derived false = true).
-Proof. intros F. apply (derived_idxs_strand_spec derived (length derived) order k F). Qed.
+Proof. apply derived_idxs_strand_spec. Qed.
 
-(* ... and wrong beyond: with one (derived) element and two subtotals the subtotal at signed
-   index -2 is read as the element (numpy would raise IndexError from -3 on) *)
-Theorem derived_idxs_slice_refuted :
-  exists derived order,
-    Forall (in_range 2 (length derived)) order /\
-    derived_idxs_slice derived order = [0] /\ (nth 0 order 0%Z < 0)%Z /\
-    derived_idxs_strand derived 2 order = [].
+Theorem derived_idxs_slice_eq_strand derived nsub order :
+  derived_idxs_slice derived nsub order = derived_idxs_strand derived nsub order.
+Proof. reflexivity. Qed.
+
+(* the former witnesses of that finding.  One (derived) element and two subtotals: the subtotal at
+   signed index -2 was read as the element (position 0 reported as derived); one element and three
+   subtotals: index -3 was out of bounds of the 2-long flag vector (IndexError).  Now no subtotal is
+   ever reported, in any in-range order. *)
+Theorem derived_idxs_slice_former_witness :
+  derived_idxs_slice [true] 2 [(-2)%Z] = [] /\
+  derived_idxs_slice [true] 3 [(-3)%Z; 0%Z; (-1)%Z] = [1] /\
+  Forall (in_range 3 (length [true])) [(-3)%Z; 0%Z; (-1)%Z].
 Proof.
-  exists [true], [(-2)%Z]. split; [|split; [|split]].
-  - constructor; [unfold in_range; simpl; lia|constructor].
-  - reflexivity.
-  - simpl. lia.
-  - reflexivity.
+  split; [reflexivity|split; [reflexivity|]].
+  repeat constructor; unfold in_range; simpl; lia.
 Qed.
 
 Theorem diff_idxs_spec nvalid is_diff order k :
